@@ -56,11 +56,14 @@ func (e *enum) populateDependentsCache() {
 		return
 	}
 
-	e.dependentsCache = map[string]Message{}
+	set := map[string]Message{}
 	for _, dep := range e.dependents {
-		e.dependentsCache[dep.FullyQualifiedName()] = dep
-		dep.getDependents(e.dependentsCache)
+		if _, seen := set[dep.FullyQualifiedName()]; !seen {
+			set[dep.FullyQualifiedName()] = dep
+			dep.getDependents(set)
+		}
 	}
+	e.dependentsCache = set
 }
 
 func (e *enum) Dependents() []Message {
